@@ -876,6 +876,41 @@ fn c07facts(repo: &Path) -> Result<String, String> {
             vals.join(", ")
         ));
     }
+    // ---- rules special-cased for a built-in type: is the built-in identified by its RESOLVED name
+    // (global scope + identifier), so that a script's own type of the same spelling is not taken for it?
+    {
+        let q = norm(&find::arm_for(&em[0], "QuestionMark")?.body);
+        let global_option = "ResolvedName{scope:ScopeRef::GLOBAL,ident:\"Option\".into()";
+        let try_needs_return = q.contains("letSome(ret_ty)=&ctx.function_return_typeelse{returnErr(");
+        let try_needs_name = q.contains("letType::Name(type_name)=self.type_info.resolve(ret_ty)else{returnErr(");
+        let try_ident = q.contains("\"Option\"");
+        let try_scope = q.contains(&format!("if(type_name.name!={global_option},}}){{returnErr(")) || q.contains(&format!("iftype_name.name!={global_option},}}{{returnErr("));
+        let global_list = "letlist_name=ResolvedName{scope:ScopeRef::GLOBAL,ident:\"List\".into(),};";
+        let concat_ident = add.contains("\"List\"");
+        let concat_scope = add.contains("ifletType::Name(n)=resolved{") && add.contains(global_list) && add.contains("ifn.name==list_name{");
+        let string_by_type = add.contains("ifType::string()==resolved{");
+        out.push_str(&format!(
+            "\n/-- `?`: the enclosing item must have a return type, it must be a type name, its identifier is compared with \"Option\", and the comparison is on the whole resolved name (scope GLOBAL) -/\ndef tryNeedsReturnType : Bool := {}\ndef tryNeedsTypeName : Bool := {}\ndef tryTestsIdent : Bool := {}\ndef tryTestsGlobalScope : Bool := {}\n/-- `+` on lists: the left operand's type name is compared with \"List\" / with the resolved name in the GLOBAL scope -/\ndef concatTestsIdent : Bool := {}\ndef concatTestsGlobalScope : Bool := {}\n/-- `+` on strings: the left operand's type is compared with the built-in `Type::string()` -/\ndef appendTestsBuiltinString : Bool := {}\n",
+            b(try_needs_return), b(try_needs_name), b(try_ident), b(try_scope), b(concat_ident), b(concat_scope), b(string_by_type)
+        ));
+        // ---- the deferred `to_string` obligation of an f-string part
+        let fs = norm(&find::arm_for(&em[0], "FString")?.body);
+        let pushes_unary = fs.contains("self.obligations.push(Obligation::ResolveMethod{id:part.id,receiver:ty.clone(),ident:\"to_string\".into(),parameter_types:vec![ty.clone()],return_type:Type::string(),},)")
+            || fs.contains("self.obligations.push(Obligation::ResolveMethod{id:part.id,receiver:ty.clone(),ident:\"to_string\".into(),parameter_types:vec![ty.clone()],return_type:Type::string(),})");
+        let ro = norm(&find::func(&mod_rs, "resolve_obligations", Some("TypeChecker"))?.block);
+        if std::env::var("C07_EXTRACT_DEBUG").is_ok() {
+            eprintln!("QuestionMark: {q}\nFString: {fs}\nresolve_obligations: {ro}");
+        }
+        let arity = ro.contains("letmutcorrect=true;correct&=sig.parameter_types.len()==parameter_types.len();");
+        let params = ro.contains("for(a,b)insig.parameter_types.iter().zip(&parameter_types){correct&=self.unify(a,b,id,None).is_ok();}");
+        let ret = ro.contains("correct&=self.unify(&sig.return_type,&return_type,id,None).is_ok();");
+        let rejects = ro.contains("if!correct{returnErr(self.error_simple(");
+        let missing = ro.contains("letSome(f)=self.get_method(&receiver,&ident)else{returnErr(self.error_no_method_on_type(&receiver,&ident));};");
+        out.push_str(&format!(
+            "\n/-- an f-string part pushes the obligation `to_string : fn(receiver) -> String` -/\ndef fstringAsksUnaryToString : Bool := {}\n/-- `resolve_obligations`: a missing method is an error; the found signature is compared with the required one by number of parameters, pairwise unification of the parameters, unification of the return types; a signature that is not `correct` is an error -/\ndef oblMissingMethodIsError : Bool := {}\ndef oblChecksArity : Bool := {}\ndef oblUnifiesParams : Bool := {}\ndef oblUnifiesReturn : Bool := {}\ndef oblRejectsIncorrect : Bool := {}\n",
+            b(pushes_unary), b(missing), b(arity), b(params), b(ret), b(rejects)
+        ));
+    }
     out.push_str("\nend RotoV.Gen.C07Facts\n");
     Ok(out)
 }
